@@ -652,7 +652,9 @@ func (k Keeper) CalculateVaultInterest(ctx sdk.Context, appID, extendedPairID, v
 	}
 
 	blockTime := vaultBlockTime
-	if blockHeight == 0 {
+	// the fee in force was set at the pair's stamp: a vault that carries an older stamp of its own (an owner
+	// message stamps the vault even while the fee is zero) accrues from the pair's stamp, not from its own
+	if blockHeight == 0 || extPairVaultBTime > vaultBlockTime {
 		blockTime = extPairVaultBTime
 	}
 	interest, err := k.CalculationOfRewards(ctx, totalDebt, ExtPairVaultData.StabilityFee, blockTime)
